@@ -36,7 +36,7 @@ type RegScenario struct {
 	Attempts []RegAttempt `json:"attempts"`
 }
 
-const regTimeout = 200 * time.Millisecond
+const regTimeout = 400 * time.Millisecond
 
 func idxString(class string, k int) string {
 	switch class {
